@@ -35,6 +35,10 @@ def gen_cases(tier):
             yield ('num', 1, lvl, lo, lo + 100, 0)
     for lo in range(0, 100000, 1000):
         yield ('num', 'M4', 'M', lo, lo + 1000, 5)
+    # version 2 and 3 symbols in bulk: dark ratios exactly at / one module off a 5% step are rare (about 1 in 10^4 symbols)
+    for v, lvl, width in ((2, 'M', 38), (3, 'Q', 50)):
+        for lo in range(0, 16000 if q else 64000, 500):
+            yield ('num', v, lvl, lo, lo + 500, width)
     if not q:
         for lvl in ('L', 'Q'):
             for lo in range(0, 100000, 1000):
@@ -119,6 +123,8 @@ def run_case(case, acc):
         for x in range(lo, hi):
             for s in ({str(x)} if width else {str(x), '%02d' % x, '%03d' % x, '%04d' % x}):
                 s = s.zfill(width) if width else s
+                if width > 5:
+                    s = (str(x * 7919 + 13) * 8)[:width]        # spread the variation over the whole content
                 kw = {'version': v, 'error': lvl, 'boost_error': False}
                 auto(s, kw, acc, ('auto1', s, kw))
     elif kind == 'alnum':
@@ -139,7 +145,14 @@ def run_case(case, acc):
         for nsym in (2, 3, 5):
             for variant in (0, 1):
                 content = C.content_of('alphanumeric', max(nsym, (per - 3) * nsym), variant)
-                for kw in ({'symbol_count': nsym, 'error': lvl, 'boost_error': False}, {'symbol_count': nsym, 'error': lvl, 'mask': 5}):
+                variants = [{'symbol_count': nsym, 'error': lvl, 'boost_error': False}, {'symbol_count': nsym, 'error': lvl, 'mask': 5}]
+                if nsym == 2:
+                    # content that fits ONE symbol of the requested version (the sequence has a single member)
+                    variants += [{'version': v, 'error': lvl, 'mask': 5, '_short': True}, {'version': v, 'error': lvl, '_short': True}]
+                for kw in variants:
+                    kw = dict(kw)
+                    if kw.pop('_short', False):
+                        content = C.content_of('alphanumeric', max(1, C.max_count('alphanumeric', v, lvl) - 3 - variant), variant)
                     try:
                         seq = segno.make_sequence(content, **kw)
                     except C.REFUSALS:
